@@ -593,7 +593,7 @@ func cmdCheck(args []string) int {
 	nflow, nasset := 0, 0
 	for _, o := range obls {
 		switch o.Kind {
-		case "flow", "readers":
+		case "flow", "readers", "guarded":
 			nflow++
 		case "asset":
 			nasset++
@@ -716,6 +716,8 @@ func writeReplay(v *Verifier, path, prop string, o *Obl, q *Query, where string)
 	found := false
 	if o.Kind == "flow" || o.Kind == "readers" {
 		rp["note"] = "information-flow obligation decided syntactically on the SSA of the function; the clause text names the offending use; no input is involved"
+	} else if o.Kind == "guarded" {
+		rp["note"] = "lock-discipline obligation decided syntactically on the SSA (must-hold dataflow of Lock/Unlock calls); the clause text names the unguarded access; a schedule that exploits it is not constructed"
 	} else if o.Kind == "asset" {
 		rp["note"] = "data obligation: the embedded file named in `where`, described to the solver as ground facts, does not satisfy the clause; the failing input is the file itself (load it with platform.NewPlatform to observe the effect)"
 	} else {
